@@ -80,6 +80,11 @@ CHECKS["C19"] = ("exploration",
     "Byte level: random resources with length around multiples of the chunk size (chunk 1-4096, keep_chunks 1-8, length 0 included), histories of seek (SET/CUR/END), tell, read(n) ending on chunk boundaries, spanning chunks, ending at / crossing EOF, n=0; after every operation data, position, cache size <= keep_chunks, cached content, no chunk behind EOF. Dataset level: generated .rtdc files (scalar, image, mask, contour, trace, logs, tables; Zstd/gzip/none) opened through RTDC_HTTP / new_dataset(url) with small chunk sizes and compared with the local file (features, config incl. types, logs, tables). All comparisons exact. Exploration, not proof.",
     "One server behaviour (invalid range ignored per RFC 7233); S3 transport not run; request counts are recorded but not judged.",
     "DESIGN.md §5 C19, notes/C19.md")
+CHECKS["C11"] = ("exploration",
+    "enumerated sweep over every metadata key x route + Hypothesis-generated assignment histories / configuration files / stored files carried through the tools, against an independent key table and normalisation (vf/lib_meta.py)",
+    "Enumerated: all 108 table keys, pattern keys and user keys x 5 routes with canonical representations. Generated: histories of set/delete on a Configuration (item, update(dict), update(**kw), Configuration.update, constructor; keys in random case; every value representation of the quantifier plus rejected inputs), hand-written and saved configuration files, files written by store_metadata / dict export / raw h5py attributes and carried through export, filtered export, compress, repack, condense, split, join. After every operation the whole section is compared with the model (documented type, equal value, untouched entries unchanged, rejected inputs warn and store nothing, idempotence, case-insensitive lookup); HDF5 attribute types after writing; configuration after re-open equals the normalised originals. Exploration + exhaustive key sweep.",
+    "The key table and normalisation rules are an own transcription of the documented tables (a key-set mismatch with dclab is itself a failure); invalid representations may raise or store a value of the documented type; text files are ASCII without '#'/quotes.",
+    "DESIGN.md §5 C11, notes/C11.md")
 NOT_APPLICABLE = {}
 
 def main():
